@@ -163,4 +163,22 @@ v("c16-n-table-guard-lt1", "C16", "none", [(KV, "func (s *KVServer) Txn(ctx cont
 v("c16-n-put-limits-reordered", "C16", "none", [(TBL, "\tif len(req.Key) == 0 {\n\t\treturn nil, serrors.ErrEmptyKey\n\t}\n\tif len(req.Key) > key.LatestVersionLen {\n\t\treturn nil, serrors.ErrKeyLengthExceeded\n\t}\n\tif len(req.Value) > MaxValueLen {", "\tif len(req.Key) > key.LatestVersionLen {\n\t\treturn nil, serrors.ErrKeyLengthExceeded\n\t}\n\tif len(req.Key) < 1 {\n\t\treturn nil, serrors.ErrEmptyKey\n\t}\n\tif len(req.Value) > MaxValueLen {")])
 v("c16-n-validator-ge", "C16", "none", [(TBL, "\t\tif len(put.Value) > MaxValueLen {\n\t\t\treturn serrors.ErrValueLengthExceeded\n\t\t}\n\t}\n\treturn nil", "\t\tif len(put.Value) >= MaxValueLen+1 {\n\t\t\treturn serrors.ErrValueLengthExceeded\n\t\t}\n\t}\n\treturn nil")])
 
+# ---------------- C07 ----------------
+BKP = "replication/backup/backup.go"
+v("c07-f4-parent", "C07", "C07.a", [(MGR, "\t\t\t// Every record belongs to a batch, including the one that reaches the size threshold.\n\t\t\tif cmd.Kv != nil {\n\t\t\t\tbatchCmd.Batch = append(batchCmd.Batch, cmd.Kv)\n\t\t\t}\n\n\t\t\tif uint64(estimatedSize) < m.cfg.Table.MaxInMemLogSize/2 {\n\t\t\t\tcontinue\n\t\t\t}", "\t\t\tif uint64(estimatedSize) < m.cfg.Table.MaxInMemLogSize/2 {\n\t\t\t\tbatchCmd.Batch = append(batchCmd.Batch, cmd.Kv)\n\t\t\t\tcontinue\n\t\t\t}")], "parent of fix F4")
+v("c07-batch-cleared-before-marshal", "C07", "C07.a", [(MGR, "\t\tbb, err := batchCmd.MarshalVT()\n\t\tif err != nil {\n\t\t\treturn err\n\t\t}\n\t\tbatchCmd.LeaderIndex = nil\n\t\tbatchCmd.Batch = batchCmd.Batch[:0]\n", "\t\tbatchCmd.Batch = batchCmd.Batch[:0]\n\t\tbb, err := batchCmd.MarshalVT()\n\t\tif err != nil {\n\t\t\treturn err\n\t\t}\n\t\tbatchCmd.LeaderIndex = nil\n")])
+v("c07-proposal-error-ignored", "C07", "C07.a", [(MGR, "\t\t}, backOff)\n\t\tif err != nil {\n\t\t\treturn err\n\t\t}\n\n\t\testimatedSize = 0", "\t\t}, backOff)\n\t\tif err != nil {\n\t\t\tm.log.Warnf(\"batch failed %v\", err)\n\t\t}\n\n\t\testimatedSize = 0")])
+v("c07-eof-skips-final-proposal", "C07", "C07.a", [(MGR, "\t\t\tif err == io.EOF {\n\t\t\t\tlast = true\n\t\t\t} else {", "\t\t\tif err == io.EOF {\n\t\t\t\tif len(batchCmd.Batch) < 2 {\n\t\t\t\t\treturn nil\n\t\t\t\t}\n\t\t\t\tlast = true\n\t\t\t} else {")])
+v("c07-dump-reads-live-db", "C07", "C07.b", [(FSM, "\t\tidx, err := commandSnapshot(snapshot, p.tableName, req.Writer, req.Stopper)", "\t\tidx, err := commandSnapshot(p.pebble.Load(), p.tableName, req.Writer, req.Stopper)")])
+v("c07-terminator-wrong-index", "C07", "C07.c", [(REPL, "\t\tLeaderIndex: &resp.Index,\n\t}).MarshalVT()", "\t\tLeaderIndex: func() *uint64 { i := resp.Index - 1; return &i }(),\n\t}).MarshalVT()")])
+v("c07-terminator-dropped", "C07", "C07.c", [(REPL, "\t_, err = sf.Write(final)\n\tif err != nil {\n\t\treturn err\n\t}\n", "\t_ = final\n")])
+v("c07-loader-drops-leader-index", "C07", "C07.c", [(MGR, "\t\t\tbatchCmd.LeaderIndex = cmd.LeaderIndex\n", "")])
+v("c07-dump-exports-system-keys", "C07", "C07.d", [(QRY, "\t\t\tif k.KeyType == key.TypeUser {", "\t\t\tif k.KeyType != key.TypeUnknown {")])
+v("c07-dump-skips-empty-values", "C07", "C07.d", [(QRY, "\t\t\tif k.KeyType == key.TypeUser {\n\t\t\t\tbuffer, err = writeCommand(", "\t\t\tif k.KeyType == key.TypeUser && len(iter.Value()) > 0 {\n\t\t\t\tbuffer, err = writeCommand(")])
+v("c07-switch-before-load", "C07", "C07.e", [(MGR, "\terr = m.readIntoTable(tbl.RecoverID, reader)\n\tif err != nil {\n\t\treturn err\n\t}\n\n\ttbl, version, err = m.getTableVersion(name)\n\tif err != nil {\n\t\treturn err\n\t}\n\n\ttbl.ClusterID = recoveryID\n\ttbl.RecoverID = 0\n\terr = m.setTableVersion(tbl, version)\n\tif err != nil {\n\t\treturn err\n\t}\n\treturn nil", "\ttbl, version, err = m.getTableVersion(name)\n\tif err != nil {\n\t\treturn err\n\t}\n\n\ttbl.ClusterID = recoveryID\n\ttbl.RecoverID = 0\n\terr = m.setTableVersion(tbl, version)\n\tif err != nil {\n\t\treturn err\n\t}\n\treturn m.readIntoTable(recoveryID, reader)")])
+v("c07-checksum-test-removed", "C07", "C07.f", [(BKP, "\t\tif hex.EncodeToString(hash.Sum(nil)) != table.MD5 {\n\t\t\treturn fmt.Errorf(\"table '%s' file '%s' corrupted (checksum mismatch)\", table.Name, table.FileName)\n\t\t}", "\t\tif hex.EncodeToString(hash.Sum(nil)) != table.MD5 {\n\t\t\tb.Log.Infof(\"table '%s' file '%s' corrupted (checksum mismatch)\", table.Name, table.FileName)\n\t\t}")])
+v("c07-hash-not-reset", "C07", "C07.f", [(BKP, "\t\thash.Reset()\n", "")])
+v("c07-n-loader-append-helper-var", "C07", "none", [(MGR, "\t\t\tif cmd.Kv != nil {\n\t\t\t\tbatchCmd.Batch = append(batchCmd.Batch, cmd.Kv)\n\t\t\t}", "\t\t\tif kv := cmd.Kv; kv != nil {\n\t\t\t\tbatchCmd.Batch = append(batchCmd.Batch, kv)\n\t\t\t}")])
+v("c07-n-checksum-eq-form", "C07", "none", [(BKP, "\t\tif hex.EncodeToString(hash.Sum(nil)) != table.MD5 {\n\t\t\treturn fmt.Errorf(\"table '%s' file '%s' corrupted (checksum mismatch)\", table.Name, table.FileName)\n\t\t}", "\t\tif sum := hex.EncodeToString(hash.Sum(nil)); sum == table.MD5 {\n\t\t\tb.Log.Infof(\"sum ok\")\n\t\t} else {\n\t\t\treturn fmt.Errorf(\"table '%s' file '%s' corrupted (checksum mismatch)\", table.Name, table.FileName)\n\t\t}")])
+
 json.dump(V, sys.stdout, indent=1)
